@@ -145,3 +145,31 @@ Inductive tail_match (l r : bytes) (maxr : Z) (t : option tbl) (text : bytes) : 
     lab <> [] -> Forall (fun c => tb c = true) lab ->
     match rev rest with [] => True | c :: _ => tb c = false end ->
     tail_match l r maxr t text lab rest.
+
+(* ---------- extractHead / extractTail patterns: the documented syntax ---------- *)
+
+(* "brackets and asterisks need to be escaped" (and the backslash itself) *)
+Definition pat_special (c : N) : bool := ((c =? 92) || (c =? 91) || (c =? 93) || (c =? 42))%N.
+Definition pat_escape (s : bytes) : bytes := flat_map (fun c => if pat_special c then [92%N; c] else [c]) s.
+
+(* the body of a character class: single bytes and ranges, '-' itself only first or last *)
+Inductive class_item := CChar (c : N) | CRange (lo hi : N).
+
+Definition item_ok_class (i : class_item) : Prop :=
+  match i with
+  | CChar c => c <> 45%N
+  | CRange lo hi => lo <> 45%N /\ hi <> 45%N /\ (hi < 255)%N /\ (lo <= hi)%N
+  end.
+
+Definition render_class_item (i : class_item) : bytes :=
+  match i with CChar c => [c] | CRange lo hi => [lo; 45%N; hi] end.
+
+Definition class_body (lead : bool) (items : list class_item) (trail : bool) : bytes :=
+  (if lead then [45%N] else []) ++ flat_map render_class_item items ++ (if trail then [45%N] else []).
+
+Definition in_class_item (c : N) (i : class_item) : bool :=
+  match i with CChar x => (c =? x)%N | CRange lo hi => ((lo <=? c) && (c <=? hi))%N end.
+
+(* the bytes a class body denotes *)
+Definition in_class (lead : bool) (items : list class_item) (trail : bool) (c : N) : bool :=
+  ((lead || trail) && (c =? 45)%N) || existsb (in_class_item c) items.
